@@ -148,6 +148,7 @@ type HarnessStats struct {
 	ForkSites map[string]int
 	MergeFails map[string]int
 	WallSecs  float64
+	eventSeen map[string]int
 	mu        sync.Mutex
 }
 
@@ -173,6 +174,7 @@ type ExploreOpts struct {
 	MaxPaths      int // per harness; 0 = unlimited
 	WitnessPer    int // witnesses to keep per harness
 	Debug, Trace  bool
+	Progress      time.Duration
 	Overrides     map[string]map[string]string // harness -> function -> override kind
 }
 
@@ -180,7 +182,7 @@ type ExploreOpts struct {
 func (p *Program) Explore(fns []*ssa.Function, cfgs []Config, opt ExploreOpts) ([]*HarnessStats, *sym.Stats, error) {
 	stats := make([]*HarnessStats, len(fns))
 	for k, fn := range fns {
-		stats[k] = &HarnessStats{Name: fn.Name(), Paths: map[string]int{}, Reaches: map[string]int{}, Funcs: map[string]int64{}, Msgs: map[string]int{}}
+		stats[k] = &HarnessStats{Name: fn.Name(), Paths: map[string]int{}, Reaches: map[string]int{}, Funcs: map[string]int64{}, Msgs: map[string]int{}, eventSeen: map[string]int{}}
 	}
 	var mu sync.Mutex
 	cond := sync.NewCond(&mu)
@@ -325,10 +327,31 @@ func (p *Program) Explore(fns []*ssa.Function, cfgs []Config, opt ExploreOpts) (
 						}
 					}
 				}
+				// data races detected on this path (happens-before) become findings
+				for _, rc := range i.Races {
+					key := "race: " + rc.A + " <-> " + rc.B
+					hs.mu.Lock()
+					seen := hs.eventSeen[key]
+					hs.eventSeen[key]++
+					hs.mu.Unlock()
+					if seen < 2 { // a model for the first occurrences only
+						res2 := res
+						res2.Status = "race"
+						res2.Msg = rc.A + " <-> " + rc.B
+						w.eventFinding(hs, res2, it.prefix)
+					}
+				}
 				// events that end a path abnormally become findings with a model
 				switch res.Status {
 				case "panic", "deadlock", "budget":
-					w.eventFinding(hs, res, it.prefix)
+					key := res.Status + ": " + res.Msg
+					hs.mu.Lock()
+					seen := hs.eventSeen[key]
+					hs.eventSeen[key]++
+					hs.mu.Unlock()
+					if seen < 3 {
+						w.eventFinding(hs, res, it.prefix)
+					}
 				case "exit":
 					if !i.allowExit {
 						w.eventFinding(hs, res, it.prefix)
@@ -355,7 +378,38 @@ func (p *Program) Explore(fns []*ssa.Function, cfgs []Config, opt ExploreOpts) (
 			mu.Unlock()
 		}(wk)
 	}
+	stopProg := make(chan struct{})
+	if opt.Progress > 0 {
+		go func() {
+			tk := time.NewTicker(opt.Progress)
+			defer tk.Stop()
+			for {
+				select {
+				case <-stopProg:
+					return
+				case <-tk.C:
+					mu.Lock()
+					q := len(queue)
+					var parts []string
+					for k, hs := range stats {
+						hs.mu.Lock()
+						n := 0
+						for _, c := range hs.Paths {
+							n += c
+						}
+						hs.mu.Unlock()
+						if pathsStarted[k] > n || (n > 0 && pathsStarted[k] == n && q > 0) {
+							parts = append(parts, fmt.Sprintf("%s=%d", hs.Name, n))
+						}
+					}
+					mu.Unlock()
+					fmt.Fprintf(os.Stderr, "[progress] queue=%d active: %s\n", q, strings.Join(parts, " "))
+				}
+			}
+		}()
+	}
 	wg.Wait()
+	close(stopProg)
 	if timedOut {
 		for _, hs := range stats {
 			hs.Msgs["deadline reached before the exploration finished"]++
